@@ -1177,6 +1177,14 @@ int NinjaMain::ToolRestat(const Options* options, int argc, char* argv[]) {
   argv += optind;
   argc -= optind;
 
+  // The log names outputs by their canonical paths.
+  for (int i = 0; i < argc; ++i) {
+    size_t len = strlen(argv[i]);
+    uint64_t slash_bits;
+    CanonicalizePath(argv[i], &len, &slash_bits);
+    argv[i][len] = '\0';
+  }
+
   string log_path = ".ninja_log";
   if (!build_dir_.empty())
     log_path = build_dir_ + "/" + log_path;
